@@ -341,14 +341,27 @@ def check_many(ctx, fi):
             ok = U(s.targets[0].slice) == p and isinstance(v, ast.Call) and isinstance(v.func, ast.Attribute) \
                 and v.func.attr == 'project' and len(v.args) == 1 and U(v.args[0]) == p
             ctx.ob('requested-order', fi, s, ok, 'each requested projection is answered under its own key through .project(%s)' % p)
-    ctx.floor('answer stores in calculate_many_marginals', n, 2)
+    ctx.floor('answer stores in calculate_many_marginals', n, 1)
     inits = [s_ for s_ in fi.body if isinstance(s_, ast.Assign) and len(s_.targets) == 1 and U(s_.targets[0]) == answers
              and U(s_.value).replace(' ', '') in ('{}', 'dict()')]
     ctx.ob('requested-order', fi, rets[-1], bool(inits) and n > 0, 'returns the answers dictionary (`%s`, filled per requested projection)' % answers)
     # a pairwise result may answer only requests it contains
     from .C14 import is_subset_test
+    # locals of the loop body bound once to set(p) / frozenset(p) stand for it in the test
+    from ..srcmodel import clone
+    setnames = {a.targets[0].id for a in ast.walk(loops[0]) if isinstance(a, ast.Assign) and len(a.targets) == 1 and isinstance(a.targets[0], ast.Name)
+                and U(a.value).replace(' ', '') in ('set(%s)' % p, 'frozenset(%s)' % p)
+                and sum(1 for b in ast.walk(loops[0]) if isinstance(b, ast.Name) and b.id == a.targets[0].id and isinstance(b.ctx, ast.Store)) == 1}
+
+    def unfolded(t):
+        class R_(ast.NodeTransformer):
+            def visit_Name(self, n):
+                if n.id in setnames and isinstance(n.ctx, ast.Load):
+                    return ast.parse('set(%s)' % p, mode='eval').body
+                return n
+        return R_().visit(clone(t))
     ok = any(isinstance(x, ast.If) and isinstance(getattr(x, '_parent', None), ast.For) and isinstance(x._parent.target, ast.Name)
-             and is_subset_test(x.test, p, x._parent.target.id) for x in ast.walk(loops[0]))
+             and is_subset_test(unfolded(x.test), p, x._parent.target.id) for x in ast.walk(loops[0]))
     ctx.ob('requested-order', fi, loops[0], ok, 'a pairwise joint answers only requests it contains')
 
 
